@@ -43,16 +43,18 @@ Section TTests.
   Definition new_result (n1 n2 : option Z) (t dof : b64) (alt : Z) : tout :=
     tout_of (p_value t dof alt) (fun p => TOk (mkTR n1 n2 t dof alt p)).
 
-  (** TwoSampleTTest (pooled variance) *)
+  (** TwoSampleTTest (pooled variance), as repaired by hooks/fix_c12_ttest_zero_dof.diff:
+      no degrees of freedom (n1 + n2 <= 2) is a size error; the zero-variance
+      decision is taken on the pooled variance the statistic divides by *)
   Definition two_sample_ttest (x1 x2 : tsample) (alt : Z) : tout :=
     let n1 := ts_n x1 in let n2 := ts_n x2 in
-    if b64_eq n1 b64_zero || b64_eq n2 b64_zero then TErr ErrSampleSize
+    if b64_eq n1 b64_zero || b64_eq n2 b64_zero || b64_le (b64_add n1 n2) k_two then TErr ErrSampleSize
     else
       let v1 := ts_var x1 in let v2 := ts_var x2 in
-      if b64_eq v1 b64_zero && b64_eq v2 b64_zero then TErr ErrZeroVariance
+      let dof := b64_sub (b64_add n1 n2) k_two in
+      let v12 := b64_div (b64_add (b64_mul (b64_sub n1 b64_one) v1) (b64_mul (b64_sub n2 b64_one) v2)) dof in
+      if b64_eq v12 b64_zero then TErr ErrZeroVariance
       else
-        let dof := b64_sub (b64_add n1 n2) k_two in
-        let v12 := b64_div (b64_add (b64_mul (b64_sub n1 b64_one) v1) (b64_mul (b64_sub n2 b64_one) v2)) dof in
         let t := b64_div (b64_sub (ts_mean x1) (ts_mean x2))
                          (b64_sqrt (b64_mul v12 (b64_add (b64_div b64_one n1) (b64_div b64_one n2)))) in
         new_result (b64_to_int n1) (b64_to_int n2) t dof alt.
@@ -96,10 +98,10 @@ Section TTests.
         let t := b64_div (b64_mul (b64_sub (mean_f d) mu0) (b64_sqrt (b64_of_Z n))) sd in
         new_result (Some n) (Some (Z.of_nat (length x2))) t dof alt.
 
-  (** OneSampleTTest *)
+  (** OneSampleTTest, as repaired by hooks/fix_c12_ttest_zero_dof.diff (n <= 1 is a size error) *)
   Definition one_sample_ttest (x : tsample) (mu0 : b64) (alt : Z) : tout :=
     let n := ts_n x in let v := ts_var x in
-    if b64_eq n b64_zero then TErr ErrSampleSize
+    if b64_le n b64_one then TErr ErrSampleSize
     else if b64_eq v b64_zero then TErr ErrZeroVariance
     else
       let dof := b64_sub n b64_one in
